@@ -45,6 +45,8 @@ def dispatch (line : String) : Verdict :=
   | "C08" :: args => handVerdict "C08" args r
   | "C09" :: args => handVerdict "C09" args r
   | "C10" :: args => handVerdict "C10" args r
+  | "C11" :: "sys" :: args => c01sys args r
+  | "C11" :: "cand" :: args => c02cand args r
   | "C11" :: args => handVerdict "C11" args r
   | "C01" :: "sys" :: args => c01sys args r
   | "C01" :: "e2e" :: rest => c02 ("e2e" :: rest) r
